@@ -48,9 +48,11 @@ class State:
         self.imprecise = []    # reasons
         self.trace = []
         self.task_path = []    # (letter, outcome) tests on the task
+        self.consts = {}       # local name -> status member / 'None'
 
     def clone(self):
         new = copy.copy(self)
+        new.consts = dict(self.consts)
         new.E = list(self.E)
         new.clock = dict(self.clock)
         new.facts = list(self.facts)
@@ -502,6 +504,15 @@ class DecisionInterp:
         if isinstance(stmt, ast.Assign) and len(stmt.targets) == 1 and \
                 isinstance(stmt.targets[0], ast.Name):
             tgt = stmt.targets[0].id
+            state.consts.pop(tgt, None)
+            mem = enum_member(stmt.value, 'TaskStatus')
+            if mem in LETTER or (isinstance(stmt.value, ast.Constant) and
+                                 stmt.value.value is None):
+                # `new_state = TaskStatus.X` on this path (single exit
+                # form: the write and the return name the local)
+                state.consts[tgt] = mem if mem in LETTER else 'None'
+                state.clock.pop(tgt, None)
+                return [state]
             sym = self._clock_value(func, stmt.value, roles)
             if sym is not None:
                 state.clock[tgt] = sym
@@ -535,6 +546,8 @@ class DecisionInterp:
                 return
             if cname == 'set_status' and len(call.args) == 2:
                 mem = enum_member(call.args[1], 'TaskStatus')
+                if mem is None and isinstance(call.args[1], ast.Name):
+                    mem = state.consts.get(call.args[1].id)
                 if txt(call.args[0]) == roles.task and mem in LETTER:
                     state.TS = frozenset({LETTER[mem]})
                     state.writes.append(LETTER[mem])
@@ -597,6 +610,11 @@ class DecisionInterp:
             self._row(func, stmt, 'None', state)
             return
         mem = enum_member(val, 'TaskStatus')
+        if mem is None and isinstance(val, ast.Name):
+            mem = state.consts.get(val.id)
+            if mem == 'None':
+                self._row(func, stmt, 'None', state)
+                return
         if mem in LETTER:
             self._row(func, stmt, mem, state)
             return
